@@ -373,6 +373,21 @@ func trackDiscard(p any) {
 	poolMu.Unlock()
 }
 
+// InPool tells whether the object sits in its pool right now (handed to Discard and not issued again), and who put it there.
+func InPool(p any) (string, bool) {
+	if !poolTrack {
+		return "", false
+	}
+	k := ptrKey(p)
+	if k == 0 {
+		return "", false
+	}
+	poolMu.Lock()
+	e, ok := inPool[k]
+	poolMu.Unlock()
+	return e.who, ok
+}
+
 // OnIssue is called by lib/value's getString/getInteger/getFloat/getDatetime with the object they hand out.
 func OnIssue(p any) {
 	if !poolTrack {
